@@ -312,15 +312,31 @@ func topRank(c []*Comp) []*Comp {
 // Graph is the resolved model of a whole population.
 type Graph struct {
 	Pop    []*Comp
-	ByPtr  map[uintptr]*Comp
+	ByPtr  map[uintptr]*Comp // NOTE: pointers to zero-size structs share one address; use Find for lookups
+	byTP   map[typePtr]*Comp
 	ByName map[string]*Comp
 	Points map[*Comp][]*Point
 }
 
+type typePtr struct {
+	t reflect.Type
+	p uintptr
+}
+
+// Find returns the registered component that obj is (same dynamic type and address), or nil.
+func (g *Graph) Find(obj any) *Comp {
+	v := reflect.ValueOf(obj)
+	if !v.IsValid() || v.Kind() != reflect.Pointer || v.IsNil() {
+		return nil
+	}
+	return g.byTP[typePtr{v.Type(), v.Pointer()}]
+}
+
 func Build(pop []*Comp) *Graph {
-	g := &Graph{Pop: pop, ByPtr: map[uintptr]*Comp{}, ByName: map[string]*Comp{}, Points: map[*Comp][]*Point{}}
+	g := &Graph{Pop: pop, ByPtr: map[uintptr]*Comp{}, byTP: map[typePtr]*Comp{}, ByName: map[string]*Comp{}, Points: map[*Comp][]*Point{}}
 	for _, c := range pop {
 		g.ByPtr[c.Ptr] = c
+		g.byTP[typePtr{c.Typ, c.Ptr}] = c
 		g.ByName[c.Name] = c
 	}
 	for _, c := range pop {
